@@ -156,17 +156,17 @@ def check(repo: Repo, rep: Report) -> None:
     for mth in vts.children:
         if not mth.is_func or mth.name == "__init__":
             continue
-        for s_ in sites(mth):
+        from ..rules import conditional_defs, expanded_guards
+        defs_ = [(s_, v_, f_) for s_, v_, f_ in conditional_defs(mth, lambda t_: u(t_) == f"self.{CLK}")]
+        defs_ += [(s_, s_.node.value, expanded_guards(mth, s_.ctx)) for s_ in sites(mth) if isinstance(s_.node, ast.AugAssign) and u(s_.node.target) == f"self.{CLK}"]
+        for s_, v_, facts_ in defs_:
             n_ = s_.node
-            if isinstance(n_, (ast.Assign, ast.AugAssign)):
-                t_ = n_.targets[0] if isinstance(n_, ast.Assign) else n_.target
-                if u(t_) != f"self.{CLK}":
-                    continue
+            if True:
                 pol = None
-                for e, p_ in s_.ctx.guards:
+                for e, p_ in facts_:
                     if isinstance(e, ast.Call) and call_name(e) == "isinstance" and len(e.args) == 2 and u(e.args[0]) == f"self.{CLK}" and "datetime" in u(e.args[1]):
                         pol = p_
-                v = n_.value
+                v = v_
                 numeric = (isinstance(v, ast.Constant) and isinstance(v.value, (int, float))) or (isinstance(v, ast.Call) and dotted(v.func) == "self.to_seconds")
                 delta = isinstance(v, ast.Call) and call_name(v) == "timedelta"
                 ok = pol is not None and not (pol and numeric) and not ((not pol) and delta)
